@@ -480,6 +480,488 @@ Proof.
     + left. split; [rewrite Hps; lia|rewrite Hps; exact Ha].
 Qed.
 
+(* ------------------------------------------------------------------ cut *)
+Lemma leaf_all body : has_continuation body = false -> LeafAt body.
+Proof.
+  destruct body; simpl; intros Hc; try discriminate Hc;
+    [apply leaf_send|apply leaf_sel|apply leaf_close|apply leaf_fwd|apply leaf_call|apply leaf_cast].
+Qed.
+
+Lemma fold_append args : forall acc,
+  fold_left (fun acc n => append_if_not_self n acc) args acc = acc ++ nonself args.
+Proof.
+  induction args as [|a r IH]; intros acc; simpl; [rewrite app_nil_r; auto|].
+  rewrite IH. unfold append_if_not_self, nonself. simpl. destruct (is_self a); simpl; auto.
+  rewrite <- app_assoc. reflexivity.
+Qed.
+Lemma free_names_leaf f : has_continuation f = false -> free_names f = nonself (leaf_names f).
+Proof.
+  destruct f; simpl; intros Hc; try discriminate Hc; unfold append_if_not_self, nonself; simpl;
+    repeat match goal with |- context [is_self ?n] => destruct (is_self n) end; simpl; auto.
+  rewrite fold_append. reflexivity.
+Qed.
+Lemma nonself_idem l : nonself (nonself l) = nonself l.
+Proof.
+  unfold nonself. induction l as [|a l IH]; simpl; auto. destruct (is_self a) eqn:E; simpl; auto.
+  rewrite E. simpl. rewrite IH. reflexivity.
+Qed.
+Lemma in_nonself n l : In n l -> is_self n = false -> In n (nonself l).
+Proof. intros Hin Sf. apply filter_In. split; auto. rewrite Sf. reflexivity. Qed.
+
+Lemma split_ctx_facts g ns acc gl gr : split_ctx D g ns acc gl gr -> gctx D g ->
+  (forall Γ, ctx_rel g Γ -> ctx_rel acc Γ -> ctx_rel gl Γ) /\
+  (forall k v, alookup k gr = Some v -> alookup k g = Some v) /\
+  NoDup (map ident (nonself ns)) /\
+  (forall n, In n (nonself ns) -> ctx_has g (ident n) = true /\ ctx_has gl (ident n) = true) /\
+  (forall k, ctx_has acc k = true -> ctx_has gl k = true).
+Proof.
+  induction 1 as [g acc|g n r acc gl gr Sf SP IH|g n r acc gl gr t h Hn Hh SP IH]; intros Gg.
+  - split; [auto|]. split; [auto|]. split; [constructor|]. split; [intros n []|auto].
+  - assert (E : nonself (n :: r) = nonself r) by (unfold nonself; simpl; rewrite Sf; reflexivity).
+    rewrite E. apply IH; auto.
+  - pose proof (proj1 Hn) as Sf.
+    assert (E : nonself (n :: r) = n :: nonself r) by (unfold nonself; simpl; rewrite Sf; reflexivity).
+    rewrite E. destruct (IH (gctx_without _ _ _ Gg)) as [I1 [I2 [I3 [I4 I5]]]].
+    pose proof (gctx_has _ _ _ _ Gg Hn) as Gt.
+    assert (Hacc : ctx_has gl (ident n) = true).
+    { apply I5. unfold ctx_has, bind. apply amem_true. rewrite alookup_aset, String.eqb_refl. eauto. }
+    split; [|split; [|split; [|split]]].
+    + intros Γ HR HA. apply I1; [apply ctx_rel_without; auto|].
+      intros y t0 L. unfold bind in L. rewrite alookup_aset in L.
+      destruct (String.eqb y (ident n)) eqn:Ey; [|eauto].
+      apply String.eqb_eq in Ey. subst y. injection L as <-.
+      destruct (HR _ _ (proj2 Hn)) as [t' [H1 H2]]. exists t'. split; auto.
+      eapply Htrans; [exact H2|]. apply Hsym, Hunf; auto.
+    + intros k v L. apply I2 in L. unfold without in L. apply alookup_aremove_Some in L. tauto.
+    + simpl. constructor; auto. intros Hin. apply in_map_iff in Hin. destruct Hin as [n' [Hid Hn']].
+      destruct (I4 _ Hn') as [Hc _]. unfold ctx_has, without in Hc. apply amem_true in Hc. destruct Hc as [v Hv].
+      rewrite Hid, alookup_aremove_eq in Hv. discriminate.
+    + intros n' [<-|Hin]; [split; auto; eapply has_ctx; eauto|].
+      destruct (I4 _ Hin) as [Hc Hl]. split; auto. eapply ctx_has_without; eauto.
+    + intros k Hk. apply I5. unfold ctx_has, bind in *. apply amem_true. rewrite alookup_aset.
+      destruct (String.eqb k (ident n)); eauto. apply amem_true in Hk. exact Hk.
+Qed.
+
+Lemma ctx_rel_sub g g' Γ : (forall k v, alookup k g' = Some v -> alookup k g = Some v) -> ctx_rel g Γ -> ctx_rel g' Γ.
+Proof. intros Hs HR x t L. apply HR. apply Hs. exact L. Qed.
+Lemma ctx_rel_nil Γ : ctx_rel [] Γ.
+Proof. intros x t L. discriminate L. Qed.
+
+(* ------------------------------------------------------------------ a context entry the body cannot name makes the checker fail
+   (linearity without weakening: every leaf demands an empty context; a binder of the same identifier is
+   refused while the entry is there).  Used to DERIVE from acceptance that binders of context channels
+   and parameters are not the keyword self, and that the explicit provider is not a parameter. *)
+Lemma has_nu g n t z : has g n t -> nu z n = true -> ident n <> z.
+Proof.
+  intros [Sf _] H. unfold nu in H. rewrite Sf in H. simpl in H. apply negb_true_iff in H. apply String.eqb_neq. exact H.
+Qed.
+Lemma keep_without g n z : ident n <> z -> ctx_has g z = true -> ctx_has (without g n) z = true.
+Proof.
+  intros Hne Hz. unfold ctx_has, without in *. apply amem_true in Hz. destruct Hz as [v Hv]. apply amem_true.
+  exists v. rewrite alookup_aremove_ne; auto.
+Qed.
+Lemma keep_aset g k (v : option sty) z : ctx_has g z = true -> ctx_has (aset k v g) z = true.
+Proof.
+  intros Hz. unfold ctx_has in *. apply amem_true in Hz. destruct Hz as [w Hw]. apply amem_true.
+  rewrite alookup_aset. destruct (String.eqb z k); eauto.
+Qed.
+Lemma nil_no_key (g : ctx) z : g = [] -> ctx_has g z = true -> False.
+Proof. intros ->. discriminate. Qed.
+Lemma fresh_ne g x z : ctx_has g x = false -> ctx_has g z = true -> String.eqb x z = false.
+Proof. intros H1 H2. destruct (String.eqb x z) eqn:E; auto. apply String.eqb_eq in E. subst. congruence. Qed.
+
+Definition StuckAt (z : string) (f : form) : Prop := forall g sh A f' rs,
+  gctx D g -> good D A -> ctx_has g z = true -> nouse z f = true -> syn_form rs f = true -> form_syn f = true ->
+  tc_form D Sg g sh (Some A) f = TOk f' -> False.
+Definition StuckBrs (z : string) (b : branches) : Prop :=
+  (forall g bs seen b' seen' rs, gctx D g -> gbrs D bs -> ctx_has g z = true -> nouse_brs z b = true ->
+     syn_brs rs b = true -> branches_syn b = true -> b <> BrNil ->
+     tc_branches_provider D Sg g bs seen b = TOk (b', seen') -> False) /\
+  (forall g sh A bs seen b' seen' rs, gctx D g -> good D A -> gbrs D bs -> ctx_has g z = true -> nouse_brs z b = true ->
+     syn_brs rs b = true -> branches_syn b = true -> b <> BrNil ->
+     tc_branches_client D Sg g sh (Some A) bs seen b = TOk (b', seen') -> False).
+
+Ltac nou_split H := simpl in H; repeat (apply andb_true_iff in H; let H2 := fresh "U" in destruct H as [H H2]).
+
+Lemma stuck_args z : forall args params g args' g', gctx D g -> Forall (typed_name_ok D) params ->
+  ctx_has g z = true -> forallb (nu z) args = true ->
+  tc_args D g args params = TOk (args', g') -> ctx_has g' z = true.
+Proof.
+  induction args as [|a ar IH]; intros [|p pr] g args' g' Gg Wp Hz Hn H; cbn [tc_args] in H; try discriminate H.
+  - inversion H; subst; auto.
+  - inversion H; subst; auto.
+  - pose proof (gctx_wf _ Gg) as Wg. simpl in Hn. apply andb_true_iff in Hn. destruct Hn as [Hna Hnr].
+    inversion Wp as [|p0 pr0 [tp [Np Wtp]] Wpr]; subst.
+    cns H Wg. rewrite Np in H. eqs H. unf HDw H Wt. step H. step H. destruct a0 as [ar' g2]. inversion H; subst.
+    eapply (IH pr (without g a)); eauto.
+    + apply gctx_without; auto.
+    + apply keep_without; auto. eapply has_nu; eauto.
+Qed.
+
+Lemma stuck_leaf z f : has_continuation f = false -> StuckAt z f.
+Proof.
+  intros Hc g sh A f' rs0 Gg GA Hz Hn _ _ H. pose proof (gctx_wf _ Gg) as Wg. pose proof (proj1 GA) as WA.
+  destruct f as [to pay cont|? ? ? ?|to l cont|? ?|? ? ?|c|? ?|to from d|? ? ? ?|fn args o|to cont|? ? ?|? ?|? ?];
+    try discriminate Hc; cbn [tc_form] in H; nou_split Hn.
+  - (* send *)
+    destruct (is_provider to sh) eqn:Pto.
+    + unf HDw H WA. as3 H as_tensor as_tensor_some.
+      cnso H Wg; [|cbn in H; destruct (consume_opt cont g0) as [fr g2]; destruct fr; cbn in H; try step H; discriminate H].
+      unf HDw H Wt. cnso H Wg0; [|cbn in H; discriminate H].
+      unf HDw H Wt0. cbn [Tc.guard tbind] in H. eqs H. eqs H. step H. step H. apply linear_gamma_ok in E0.
+      destruct (has_without _ _ _ _ Has0) as [Hasc _].
+      eapply nil_no_key; [exact E0|]. apply keep_without; [eapply has_nu; eauto|]. apply keep_without; [eapply has_nu; eauto|auto].
+    + destruct (is_provider cont sh) eqn:Pc; [|discriminate H].
+      cns H Wg. unf HDw H Wt. as3 H as_lolli as_lolli_some.
+      pose proof (gctx_has _ _ _ _ Gg Has) as Gt.
+      destruct (good_lolli _ _ _ _ (good_head _ HD _ _ Hh Gt)) as [Gel Ger].
+      pose proof (proj1 Gel) as Wel. pose proof (proj1 Ger) as Wer.
+      cnso H Wg0.
+      2:{ rewrite (consume_maybe_self_opt_prov _ _ _ _ Pc) in H. unf HDw H Wel. unf HDw H Wer.
+          cbn [unfold_opt tbind] in H. step H. cbn in H. discriminate H. }
+      rewrite (consume_maybe_self_opt_prov _ _ _ _ Pc) in H.
+      unf HDw H Wel. unf HDw H Wer. unf HDw H Wt0. unf HDw H WA. cbn [Tc.guard tbind] in H.
+      eqs H. eqs H. step H. step H. apply linear_gamma_ok in E0.
+      destruct (has_without _ _ _ _ Has0) as [Hasp _].
+      eapply nil_no_key; [exact E0|]. apply keep_without; [eapply has_nu; eauto|]. apply keep_without; [eapply has_nu; eauto|auto].
+  - (* sel *)
+    destruct (is_provider to sh) eqn:Pto.
+    + unf HDw H WA. as2 H as_plus as_plus_some.
+      destruct (find_br l b) as [ct|] eqn:Fb; [|discriminate H].
+      pose proof (good_plus _ _ _ _ _ (good_head _ HD _ _ Hh GA) Fb) as Gct. pose proof (proj1 Gct) as Wct.
+      cns H Wg. eqs H. unf HDw H Wct. step H. step H. apply linear_gamma_ok in E0.
+      eapply nil_no_key; [exact E0|]. apply keep_without; [eapply has_nu; eauto|auto].
+    + destruct (is_provider cont sh) eqn:Pc; [|discriminate H].
+      cns H Wg. unf HDw H Wt. as2 H as_with as_with_some.
+      destruct (find_br l b) as [ct|] eqn:Fb; [|discriminate H].
+      pose proof (gctx_has _ _ _ _ Gg Has) as Gt.
+      pose proof (good_with _ _ _ _ _ (good_head _ HD _ _ Hh Gt) Fb) as Gct. pose proof (proj1 Gct) as Wct.
+      rewrite (consume_maybe_self_prov _ _ _ _ Pc) in H. cbn [tbind] in H.
+      eqs H. unf HDw H Wct. step H. step H. apply linear_gamma_ok in E0.
+      eapply nil_no_key; [exact E0|]. apply keep_without; [eapply has_nu; eauto|auto].
+  - (* close *)
+    unf HDw H WA. destruct (is_provider c sh) eqn:Pc.
+    + destruct (is_unit (Some h)) eqn:Un; [|now apply type_mismatch_not_ok in H].
+      step H. step H. apply linear_gamma_ok in E0. eapply nil_no_key; eauto.
+    + destruct (is_unit (Some h)); [discriminate H|now apply type_mismatch_not_ok in H].
+  - (* fwd *)
+    destruct (is_provider from sh) eqn:Pf; [discriminate H|].
+    destruct (is_provider to sh) eqn:Pt; [|discriminate H]. cbn [negb] in H.
+    cnso H Wg; [|cbn in H; discriminate H].
+    unf HDw H Wt. cbn [Tc.guard tbind] in H.
+    eqs H. unf HDw H WA. cbn [need tbind] in H.
+    step H. step H. step H. step H. step H. apply linear_gamma_ok in E2.
+    eapply nil_no_key; [exact E2|]. apply keep_without; [eapply has_nu; eauto|auto].
+  - (* call *)
+    destruct (sig_lookup Sg fn) as [sg|] eqn:SL; [|discriminate H].
+    destruct (HSgw _ _ SL) as [[ft [Eft Wft]] Wps]. rewrite Eft in H.
+    destruct (S (length (fs_params sg)) =? length args)%nat eqn:N1.
+    + destruct args as [|a0 rest]; [discriminate H|].
+      step H. eqs H. step H. destruct a as [rest' g1]. step H. apply linear_gamma_ok in E0. subst g1.
+      simpl in Hn. apply andb_true_iff in Hn. destruct Hn as [_ Hn].
+      pose proof (stuck_args z _ _ _ _ _ Gg Wps Hz Hn E) as Hk. discriminate Hk.
+    + destruct (length (fs_params sg) =? length args)%nat eqn:N2; [|discriminate H].
+      eqs H. step H. destruct a as [args' g1]. step H. apply linear_gamma_ok in E0. subst g1.
+      pose proof (stuck_args z _ _ _ _ _ Gg Wps Hz Hn E) as Hk. discriminate Hk.
+  - (* cast *)
+    destruct (is_provider to sh) eqn:Pto.
+    + unf HDw H WA. as3 H as_down as_down_some.
+      pose proof (good_down _ _ _ _ (good_head _ HD _ _ Hh GA)) as Ga. pose proof (proj1 Ga) as Wa.
+      step H. step H. unf HDw H Wa.
+      cnso H Wg; [|cbn in H; discriminate H].
+      unf HDw H Wt. cbn [Tc.guard need tbind] in H. step H. eqs H. step H. step H. apply linear_gamma_ok in E1.
+      eapply nil_no_key; [exact E1|]. apply keep_without; [eapply has_nu; eauto|auto].
+    + destruct (is_provider cont sh) eqn:Pc; [|discriminate H].
+      cns H Wg. unf HDw H Wt. as3 H as_up as_up_some.
+      pose proof (gctx_has _ _ _ _ Gg Has) as Gt.
+      pose proof (good_up _ _ _ _ (good_head _ HD _ _ Hh Gt)) as Ga. pose proof (proj1 Ga) as Wa.
+      step H. step H. rewrite (consume_maybe_self_opt_prov _ _ _ _ Pc) in H.
+      unf HDw H Wa. unf HDw H WA. cbn [Tc.guard need tbind] in H. step H. eqs H. step H. step H.
+      apply linear_gamma_ok in E1.
+      eapply nil_no_key; [exact E1|]. apply keep_without; [eapply has_nu; eauto|auto].
+Qed.
+
+Lemma stuck_recv z pay cont from k : StuckAt z k -> StuckAt z (FRecv pay cont from k).
+Proof.
+  intros IH g sh A f' rs0 Gg GA Hz Hn Hsyn Hfs H. pose proof (gctx_wf _ Gg) as Wg. pose proof (proj1 GA) as WA.
+  cbn [tc_form] in H. syn_split Hsyn. syn_split Hfs. simpl in Hn. apply andb_true_iff in Hn. destruct Hn as [Hnf Hnk].
+  destruct (is_provider from sh) eqn:Pf.
+  - unf HDw H WA. as3 H as_lolli as_lolli_some.
+    destruct (good_lolli _ _ _ _ (good_head _ HD _ _ Hh GA)) as [Gl Gr].
+    pose proof (proj1 Gl) as Wl. pose proof (proj1 Gr) as Wr.
+    unf HDw H Wl. unf HDw H Wr. step H. step H.
+    apply negb_true_iff, orb_false_iff in G. destruct G as [F1 F2].
+    step H. step H.
+    rewrite (fresh_ne _ _ _ F1 Hz), (fresh_ne _ _ _ F2 Hz) in Hnk. simpl in Hnk.
+    eapply (IH (bind g pay h)); [| | |eassumption|eassumption|eassumption|eassumption].
+    + apply gctx_bind; auto. eapply good_head; eauto.
+    + eapply good_head; eauto.
+    + apply keep_aset; auto.
+  - destruct (is_provider pay sh || is_provider cont sh) eqn:Pp; [discriminate H|].
+    cns H Wg. unf HDw H Wt. as3 H as_tensor as_tensor_some.
+    pose proof (gctx_has _ _ _ _ Gg Has) as Gt.
+    destruct (good_tensor _ _ _ _ (good_head _ HD _ _ Hh Gt)) as [Gl Gr].
+    pose proof (proj1 Gl) as Wl. pose proof (proj1 Gr) as Wr.
+    unf HDw H Wl. unf HDw H Wr. step H. step H.
+    apply negb_true_iff, orb_false_iff in G. destruct G as [F1 F2].
+    step H. step H.
+    pose proof (keep_without _ _ _ (has_nu _ _ _ _ Has Hnf) Hz) as Hz1.
+    rewrite (fresh_ne _ _ _ F1 Hz1), (fresh_ne _ _ _ F2 Hz1) in Hnk. simpl in Hnk.
+    eapply (IH (bind (bind (without g from) pay h) cont h0)); [| | |eassumption|eassumption|eassumption|eassumption].
+    + apply gctx_bind; [apply gctx_bind; [apply gctx_without; auto|]|]; eapply good_head; eauto.
+    + exact GA.
+    + apply keep_aset. apply keep_aset. auto.
+Qed.
+
+Lemma stuck_wait z c k : StuckAt z k -> StuckAt z (FWait c k).
+Proof.
+  intros IH g sh A f' rs0 Gg GA Hz Hn Hsyn Hfs H. pose proof (gctx_wf _ Gg) as Wg. pose proof (proj1 GA) as WA.
+  cbn [tc_form] in H. syn_split Hsyn. syn_split Hfs. simpl in Hn. apply andb_true_iff in Hn. destruct Hn as [Hnf Hnk].
+  destruct (is_provider c sh) eqn:Pc.
+  - unf HDw H WA. destruct (is_unit (Some h)); [discriminate H|now apply type_mismatch_not_ok in H].
+  - cns H Wg. unf HDw H Wt.
+    destruct (is_unit (Some h)) eqn:Un; [|now apply type_mismatch_not_ok in H].
+    step H. step H.
+    eapply (IH (without g c)); [| | |eassumption|eassumption|eassumption|eassumption];
+      [apply gctx_without; auto|exact GA|apply keep_without; auto; eapply has_nu; eauto].
+Qed.
+
+Lemma stuck_drop z c k : StuckAt z k -> StuckAt z (FDrop c k).
+Proof.
+  intros IH g sh A f' rs0 Gg GA Hz Hn Hsyn Hfs H. pose proof (gctx_wf _ Gg) as Wg. pose proof (proj1 GA) as WA.
+  cbn [tc_form] in H. syn_split Hsyn. syn_split Hfs. simpl in Hn. apply andb_true_iff in Hn. destruct Hn as [Hnf Hnk].
+  destruct (negb (is_provider c sh)) eqn:Pc; [|discriminate H].
+  cns H Wg. cbn [need tbind] in H.
+  destruct (weak (mode_of t)) eqn:Wk; [|discriminate H].
+  unf HDw H Wt. step H. step H.
+  eapply (IH (without g c)); [| | |eassumption|eassumption|eassumption|eassumption];
+    [apply gctx_without; auto|exact GA|apply keep_without; auto; eapply has_nu; eauto].
+Qed.
+
+Lemma stuck_print z l k : StuckAt z k -> StuckAt z (FPrint l k).
+Proof.
+  intros IH g sh A f' rs0 Gg GA Hz Hn Hsyn Hfs H. cbn [tc_form] in H. simpl in Hn, Hsyn, Hfs. step H. eapply IH; [| | |eassumption|eassumption|eassumption|eassumption]; auto.
+Qed.
+
+Lemma stuck_shift z x from k : StuckAt z k -> StuckAt z (FShift x from k).
+Proof.
+  intros IH g sh A f' rs0 Gg GA Hz Hn Hsyn Hfs H. pose proof (gctx_wf _ Gg) as Wg. pose proof (proj1 GA) as WA.
+  cbn [tc_form] in H. syn_split Hsyn. syn_split Hfs. simpl in Hn. apply andb_true_iff in Hn. destruct Hn as [Hnf Hnk].
+  destruct (is_provider from sh) eqn:Pf.
+  - unf HDw H WA. as3 H as_up as_up_some.
+    pose proof (good_up _ _ _ _ (good_head _ HD _ _ Hh GA)) as Ga. pose proof (proj1 Ga) as Wa.
+    step H. step H. unf HDw H Wa. step H. apply negb_true_iff in G0.
+    step H. step H.
+    rewrite (fresh_ne _ _ _ G0 Hz) in Hnk. simpl in Hnk.
+    eapply (IH g); [| | |eassumption|eassumption|eassumption|eassumption]; auto. eapply good_head; eauto.
+  - destruct (is_provider x sh) eqn:Px; [discriminate H|].
+    cns H Wg. unf HDw H Wt. as3 H as_down as_down_some.
+    pose proof (gctx_has _ _ _ _ Gg Has) as Gt.
+    pose proof (good_down _ _ _ _ (good_head _ HD _ _ Hh Gt)) as Ga. pose proof (proj1 Ga) as Wa.
+    step H. step H. unf HDw H Wa. step H. apply negb_true_iff in G0.
+    step H. step H.
+    pose proof (keep_without _ _ _ (has_nu _ _ _ _ Has Hnf) Hz) as Hz1.
+    rewrite (fresh_ne _ _ _ G0 Hz1) in Hnk. simpl in Hnk.
+    eapply (IH (bind (without g from) x h)); [| | |eassumption|eassumption|eassumption|eassumption].
+    + apply gctx_bind; [apply gctx_without; auto|eapply good_head; eauto].
+    + exact GA.
+    + apply keep_aset. auto.
+Qed.
+
+Lemma stuck_split z x y from k : StuckAt z k -> StuckAt z (FSplit x y from k).
+Proof.
+  intros IH g sh A f' rs0 Gg GA Hz Hn Hsyn Hfs H. pose proof (gctx_wf _ Gg) as Wg. pose proof (proj1 GA) as WA.
+  cbn [tc_form] in H. syn_split Hsyn. syn_split Hfs. simpl in Hn. apply andb_true_iff in Hn. destruct Hn as [Hnf Hnk].
+  destruct (is_provider from sh) eqn:Pf; [discriminate H|].
+  cnso H Wg; [|cbn in H; discriminate H].
+  unf HDw H Wt. cbn [Tc.guard tbind] in H. step H. step H. step H.
+  apply negb_true_iff, orb_false_iff in G0. destruct G0 as [F1 F2].
+  cbn [need tbind] in H. step H. step H. step H.
+  pose proof (gctx_has _ _ _ _ Gg Has) as Gt. pose proof (good_head _ HD _ _ Hh Gt) as Gh.
+  pose proof (keep_without _ _ _ (has_nu _ _ _ _ Has Hnf) Hz) as Hz1.
+  rewrite (fresh_ne _ _ _ F1 Hz1), (fresh_ne _ _ _ F2 Hz1) in Hnk. simpl in Hnk.
+  eapply (IH (bind (bind (without g from) x h) y h)); [| | |eassumption|eassumption|eassumption|eassumption].
+  - apply gctx_bind; auto. apply gctx_bind; auto. apply gctx_without; auto.
+  - exact GA.
+  - apply keep_aset. apply keep_aset. auto.
+Qed.
+
+Lemma stuck_brs_nil z : StuckBrs z BrNil.
+Proof. split; intros; congruence. Qed.
+
+Lemma stuck_brs_cons z l pay k r : StuckAt z k -> StuckBrs z (BrCons l pay k r).
+Proof.
+  intros IHk. split.
+  - intros g bs seen b' seen' rs0 Gg Gbs Hz Hn Hsyn Hfs _ H. pose proof (gctx_wf _ Gg) as Wg.
+    rewrite tc_brsR_cons in H. syn_split Hsyn. syn_split Hfs. simpl in Hn. apply andb_true_iff in Hn. destruct Hn as [Hnk _].
+    step H. destruct (find_br l bs) as [bt|] eqn:Fb; [|discriminate H].
+    pose proof (Gbs _ _ Fb) as Gbt. pose proof (proj1 Gbt) as Wbt.
+    step H. apply negb_true_iff in G0.
+    unf HDw H Wbt. step H. step H.
+    rewrite (fresh_ne _ _ _ G0 Hz) in Hnk. simpl in Hnk.
+    eapply (IHk g); [| | |eassumption|eassumption|eassumption|eassumption]; auto.
+  - intros g sh A bs seen b' seen' rs0 Gg GA Gbs Hz Hn Hsyn Hfs _ H. pose proof (gctx_wf _ Gg) as Wg.
+    rewrite tc_brsL_cons in H. syn_split Hsyn. syn_split Hfs. simpl in Hn. apply andb_true_iff in Hn. destruct Hn as [Hnk _].
+    step H. destruct (find_br l bs) as [bt|] eqn:Fb; [|discriminate H].
+    pose proof (Gbs _ _ Fb) as Gbt. pose proof (proj1 Gbt) as Wbt.
+    step H. step H. apply negb_true_iff in G1.
+    unf HDw H Wbt. step H. step H.
+    rewrite (fresh_ne _ _ _ G1 Hz) in Hnk. simpl in Hnk.
+    eapply (IHk (bind g pay bt)); [| | |eassumption|eassumption|eassumption|eassumption].
+    + apply gctx_bind; auto.
+    + exact GA.
+    + apply keep_aset; auto.
+Qed.
+
+Lemma brs_len_pos bs m : (good D (TPlus bs m) \/ good D (TWith bs m)) -> brs_len bs <> 0%nat.
+Proof.
+  intros [[_ S]|[_ S]]; simpl in S; apply andb_true_iff in S; destruct S as [S _];
+    apply negb_true_iff, Nat.eqb_neq in S; exact S.
+Qed.
+
+Lemma stuck_case z from b : StuckBrs z b -> StuckAt z (FCase from b).
+Proof.
+  intros [IHR IHL] g sh A f' rs0 Gg GA Hz Hn Hsyn Hfs H. pose proof (gctx_wf _ Gg) as Wg. pose proof (proj1 GA) as WA.
+  cbn [tc_form] in H. syn_split Hsyn. syn_split Hfs. simpl in Hn. apply andb_true_iff in Hn. destruct Hn as [Hnf Hnb].
+  destruct (is_provider from sh) eqn:Pf.
+  - unf HDw H WA. as2 H as_with as_with_some.
+    pose proof (good_head _ HD _ _ Hh GA) as Gh.
+    step H. destruct a as [b' seen']. step H.
+    destruct b as [|l pay k r].
+    + cbn in E. inversion E; subst. simpl in G. pose proof (brs_len_pos _ _ (or_intror Gh)).
+      destruct (brs_len b0); [congruence|discriminate G].
+    + eapply (IHR g); [exact Gg|intros l0 a0; apply (good_with _ _ _ l0 a0 Gh)|exact Hz|exact Hnb|exact N|eassumption|discriminate|exact E].
+  - cns H Wg. unf HDw H Wt. as2 H as_plus as_plus_some.
+    pose proof (gctx_has _ _ _ _ Gg Has) as Gt. pose proof (good_head _ HD _ _ Hh Gt) as Gh.
+    step H. destruct a as [b' seen']. step H.
+    destruct b as [|l pay k r].
+    + cbn in E. inversion E; subst. simpl in G. pose proof (brs_len_pos _ _ (or_introl Gh)).
+      destruct (brs_len b0); [congruence|discriminate G].
+    + eapply (IHL (without g from)); [apply gctx_without; auto|exact GA|intros l0 a0; apply (good_plus _ _ _ l0 a0 Gh)
+        |apply keep_without; auto; eapply has_nu; eauto|exact Hnb|exact N|eassumption|discriminate|exact E].
+Qed.
+
+Lemma split_keep z g ns acc gl gr : split_ctx D g ns acc gl gr ->
+  forallb (nu z) ns = true -> ctx_has g z = true -> ctx_has gr z = true.
+Proof.
+  induction 1 as [g acc|g n r acc gl gr Sf SP IH|g n r acc gl gr t h Hn Hh SP IH]; intros Hnu Hz; auto;
+    simpl in Hnu; apply andb_true_iff in Hnu; destruct Hnu as [Hn1 Hn2]; auto.
+  apply IH; auto. apply keep_without; auto. eapply has_nu; eauto.
+Qed.
+
+Lemma nouse_leaf z f : has_continuation f = false -> nouse z f = true -> forallb (nu z) (leaf_names f) = true.
+Proof.
+  destruct f; simpl; intros Hc H; try discriminate Hc; auto;
+    repeat (apply andb_true_iff in H; destruct H as [H ?]); repeat (apply andb_true_iff; split); auto.
+Qed.
+Lemma syn_leaf_chan rs f : has_continuation f = false -> syn_form rs f = true ->
+  forall n, In n (leaf_names f) -> chan n = None.
+Proof.
+  destruct f; simpl; intros Hc H n Hin; try discriminate Hc;
+    repeat (apply andb_true_iff in H; destruct H as [H ?]);
+    try (rewrite forallb_forall in H; eapply nm_ok_chan; eauto; fail);
+    repeat (destruct Hin as [<-|Hin]; [eapply nm_ok_chan; eauto|]); destruct Hin.
+Qed.
+
+(* the name of a cut that re-uses the entry z must occur in the spawned body: impossible when the
+   body cannot name z *)
+Lemma reuse_needs_name z x body rs : has_continuation body = false -> syn_form rs body = true ->
+  nouse z body = true -> chan x = None -> ident x = z -> name_in_names x (free_names body) = false.
+Proof.
+  intros Hc Hs Hn Hx Hi. rewrite (free_names_leaf _ Hc).
+  destruct (name_in_names x (nonself (leaf_names body))) eqn:E; auto. exfalso.
+  unfold name_in_names in E. apply existsb_exists in E. destruct E as [n [Hin Hne]].
+  unfold nonself in Hin. apply filter_In in Hin. destruct Hin as [Hin Hsf]. apply negb_true_iff in Hsf.
+  pose proof (syn_leaf_chan _ _ Hc Hs n Hin) as Hcn.
+  unfold name_equal, initialized in Hne. rewrite Hx, Hcn in Hne. simpl in Hne.
+  apply andb_true_iff in Hne. destruct Hne as [Hne _]. apply String.eqb_eq in Hne.
+  pose proof (nouse_leaf _ _ Hc Hn) as Hall. rewrite forallb_forall in Hall. specialize (Hall n Hin).
+  unfold nu in Hall. rewrite Hsf in Hall. simpl in Hall. apply negb_true_iff, String.eqb_neq in Hall. congruence.
+Qed.
+
+Lemma stuck_new z x body k : StuckAt z k -> StuckAt z (FNew x body k).
+Proof.
+  intros IHk g sh A f' rs0 Gg GA Hz Hn Hsyn Hfs H. pose proof (gctx_wf _ Gg) as Wg. pose proof (proj1 GA) as WA.
+  syn_split Hsyn. syn_split Hfs. simpl in Hn. apply andb_true_iff in Hn. destruct Hn as [Hnb Hnk].
+  pose proof (bd_ok_chan _ Hsyn) as Hcx.
+  destruct (call_or_not body) as [[fn [args [o ->]]]|NC].
+  - rewrite tc_new_call_eq in H. unfold tc_new_call in H. cbv zeta in H.
+    step H. step H. step H. step H. apply negb_true_iff in G2.
+    step H. destruct a as [gl gr0].
+    destruct (split_gamma_sound D HDw _ _ _ _ _ Wg (Forall_nil _) E) as [SP [Wgl Wgr]].
+    destruct (split_ctx_good _ HD _ _ _ _ _ SP Gg (gctx_nil _)) as [Ggl Ggr].
+    destruct (sig_lookup Sg fn) as [sg|] eqn:SL; [|discriminate H].
+    destruct (HSgw _ _ SL) as [[ft [Eft Wft]] Wps]. rewrite Eft in H.
+    destruct (HSg _ _ SL) as [Gft Gps].
+    unf HDw H Wft.
+    step H. clear E0. step H. step H. step H.
+    pose proof (good_head _ HD _ _ Hh (Gft _ Eft)) as Gh.
+    assert (EQ : aset (ident x) (Some h) (if ctx_has g (ident x) then aset (ident x) (nty x) gr0 else gr0)
+                 = bind gr0 x h) by (destruct (ctx_has g (ident x)); [apply aset_aset|reflexivity]).
+    rewrite EQ in E2.
+    destruct (String.eqb (ident x) z) eqn:Exz.
+    + apply String.eqb_eq in Exz. rewrite Exz, Hz in G1.
+      rewrite (reuse_needs_name z x _ _ G2 N0 Hnb Hcx Exz) in G1. discriminate G1.
+    + simpl in Hnk. eapply (IHk (bind gr0 x h)); [| | |eassumption|eassumption|eassumption|eassumption].
+      * apply gctx_bind; auto.
+      * exact GA.
+      * apply keep_aset. eapply split_keep; eauto.
+  - rewrite (tc_new_ax_eq _ _ _ _ _ _ _ _ NC) in H. unfold tc_new_ax in H. cbv zeta in H.
+    step H. step H. step H. step H. apply negb_true_iff in G2.
+    step H. destruct a as [gl gr0].
+    destruct (split_gamma_sound D HDw _ _ _ _ _ Wg (Forall_nil _) E) as [SP [Wgl Wgr]].
+    destruct (split_ctx_good _ HD _ _ _ _ _ SP Gg (gctx_nil _)) as [Ggl Ggr].
+    destruct (nty x) as [xt|] eqn:Nx; [|discriminate H].
+    step H. step H. rename a into xt1.
+    unf HDw H G3.
+    step H. step H. step H. cbn [unfold_opt] in H.
+    rewrite (unfold_nonname _ _ (head_nonname _ _ _ Hh)) in H. cbn [lift tbind] in H.
+    step H. step H.
+    assert (EQ : aset (ident x) (Some h) (if ctx_has g (ident x) then aset (ident x) (Some xt) gr0 else gr0)
+                 = bind gr0 x h) by (destruct (ctx_has g (ident x)); [apply aset_aset|reflexivity]).
+    rewrite EQ in E5.
+    destruct (String.eqb (ident x) z) eqn:Exz.
+    + apply String.eqb_eq in Exz. rewrite Exz, Hz in G1.
+      rewrite (reuse_needs_name z x _ _ G2 N0 Hnb Hcx Exz) in G1. discriminate G1.
+    + simpl in Hnk. eapply (IHk (bind gr0 x h)); [| | |eassumption|eassumption|eassumption|eassumption].
+      * apply gctx_bind; auto. apply (good_head _ HD _ _ Hh). split; [exact G3|].
+        eapply add_missing_syn; eauto. unfold name_syn in Hfs. rewrite Nx in Hfs. exact Hfs.
+      * exact GA.
+      * apply keep_aset. eapply split_keep; eauto.
+        rewrite (free_names_leaf _ G2). apply forallb_forall. intros n Hin.
+        unfold nonself in Hin. apply filter_In in Hin. destruct Hin as [Hin _].
+        pose proof (nouse_leaf _ _ G2 Hnb) as Hall. rewrite forallb_forall in Hall. auto.
+Qed.
+
+Theorem stuck_all z : (forall f, StuckAt z f) /\ (forall b, StuckBrs z b).
+Proof.
+  apply form_branches_ind; intros.
+  - apply stuck_leaf; reflexivity.
+  - now apply stuck_recv.
+  - apply stuck_leaf; reflexivity.
+  - now apply stuck_case.
+  - now apply stuck_new.
+  - apply stuck_leaf; reflexivity.
+  - now apply stuck_wait.
+  - apply stuck_leaf; reflexivity.
+  - now apply stuck_split.
+  - apply stuck_leaf; reflexivity.
+  - apply stuck_leaf; reflexivity.
+  - now apply stuck_shift.
+  - now apply stuck_drop.
+  - now apply stuck_print.
+  - apply stuck_brs_nil.
+  - now apply stuck_brs_cons.
+Qed.
+
+(* a successful check of f leaves no room for a context entry "" *)
+Lemma no_empty_key g sh A f f' rs : gctx D g -> good D A -> syn_form rs f = true -> form_syn f = true ->
+  tc_form D Sg g sh (Some A) f = TOk f' -> ctx_has g "" = false.
+Proof.
+  intros Gg GA Hs Hf H. destruct (ctx_has g "") eqn:E; auto. exfalso.
+  eapply (proj1 (stuck_all "") f); eauto. eapply (proj1 syn_nouse_empty); eauto.
+Qed.
+
 (* ------------------------------------------------------------------ the provided type up to unfolding *)
 Lemma client_conv Δ Γ sh n t t' : client_ty Δ Γ sh n t -> teq D t t' -> client_ty Δ Γ sh n t'.
 Proof.
@@ -585,8 +1067,19 @@ Qed.
 
 Lemma name_equal_bd a b : bd_ok a = true -> bd_ok b = true -> name_equal a b = false -> ident a <> ident b.
 Proof.
-  unfold bd_ok, name_equal, initialized. destruct (chan a); [discriminate|]. destruct (chan b); [discriminate|].
-  simpl. intros _ _ H E. rewrite E, String.eqb_refl in H. discriminate.
+  intros Ha Hb. apply bd_ok_chan in Ha. apply bd_ok_chan in Hb. unfold name_equal, initialized. rewrite Ha, Hb.
+  simpl. intros H E. rewrite E, String.eqb_refl in H. discriminate.
+Qed.
+
+(* a payload binder that is the keyword self would put the entry "" into the context *)
+Lemma strict_by_key g x (v : option sty) sh A f f' rs :
+  bd_ok x = true -> gctx D (aset (ident x) v g) -> good D A -> syn_form rs f = true -> form_syn f = true ->
+  tc_form D Sg (aset (ident x) v g) sh (Some A) f = TOk f' -> binder x.
+Proof.
+  intros Hb Gg GA Hs Hf H. apply bd_ok_binder; auto. destruct (is_self x) eqn:S; auto. exfalso.
+  pose proof (bd_ok_self _ Hb S) as E.
+  pose proof (no_empty_key _ _ _ _ _ _ Gg GA Hs Hf H) as K.
+  unfold ctx_has in K. apply amem_false in K. rewrite E, alookup_aset in K. simpl in K. discriminate.
 Qed.
 
 (* ------------------------------------------------------------------ all forms *)
@@ -612,16 +1105,18 @@ Proof.
     apply negb_true_iff, orb_false_iff in G. destruct G as [F1 F2]. apply negb_true_iff in G0.
     step H. step H. injection H as <-.
     pose proof (name_equal_bd _ _ Hsyn N1 G0) as Hne.
+    pose proof (good_head _ HD _ _ Hh0 Gl) as Gh. pose proof (good_head _ HD _ _ Hh1 Gr) as Gh0.
+    assert (Gg1 : gctx D (bind g pay h)) by (apply gctx_bind; auto).
+    pose proof (strict_by_key g pay (Some h) _ _ _ _ _ Hsyn Gg1 Gh0 N Fk E0) as Hbp.
+    rewrite (under_strict _ _ (proj2 Hbp)) in N.
     eapply T_RecvP with (A := s) (B := s0) (m := m).
     + apply prov_shid; auto.
     + apply whd_of_head. exact Hh.
-    + apply bd_ok_binder. exact Hsyn.
-    + apply bd_ok_binder. exact N1.
+    + exact Hbp.
+    + apply bd_ok_pbinder. exact N1.
     + exact Hne.
     + eapply typed_unfolded; [exact Gr|exact Hh1|].
       eapply (IH (bind g pay h) (Some (set_nty cont (Some h0)))); eauto.
-      * apply gctx_bind; auto. eapply good_head; eauto.
-      * eapply good_head; eauto.
       * intros z Ez. injection Ez as <-. change (ident (set_nty cont (Some h0))) with (ident cont).
         unfold bind. rewrite alookup_aset.
         destruct (String.eqb (ident cont) (ident pay)) eqn:Ecp; [apply String.eqb_eq in Ecp; congruence|].
@@ -638,11 +1133,14 @@ Proof.
     apply negb_true_iff, orb_false_iff in G. destruct G as [F1 F2]. apply negb_true_iff in G0.
     step H. step H. injection H as <-.
     pose proof (name_equal_bd _ _ Hsyn N1 G0) as Hne.
+    pose proof (bd_ok_binder _ Hsyn (not_provider_not_self _ _ Pp)) as Hbp.
+    pose proof (bd_ok_binder _ N1 (not_provider_not_self _ _ Pc)) as Hbc.
+    rewrite (under_strict _ _ (proj2 Hbp)), (under_strict _ _ (proj2 Hbc)) in N.
     eapply T_RecvC with (T := t) (A := s) (B := s0) (m := m).
     + apply (client_ok g Γ (shid sh) rs from t _ t Gg HR Has Hh N0); [apply not_prov_shid; auto|apply Hrefl].
     + apply whd_of_head. exact Hh.
-    + apply bd_ok_binder. exact Hsyn.
-    + apply bd_ok_binder. exact N1.
+    + exact Hbp.
+    + exact Hbc.
     + exact Hne.
     + apply not_prov_shid; auto.
     + apply not_prov_shid; auto.
@@ -704,7 +1202,8 @@ Proof.
     pose proof (good_up _ _ _ _ (good_head _ HD _ _ Hh GA)) as Ga. pose proof (proj1 Ga) as Wa.
     step H. step H. unf HDw H Wa. step H. apply negb_true_iff in G0.
     step H. step H. injection H as <-.
-    eapply T_ShiftP; [apply prov_shid; auto|apply whd_of_head; exact Hh|apply bd_ok_binder; exact Hsyn|].
+    eapply T_ShiftP; [apply prov_shid; auto|apply whd_of_head; exact Hh|apply bd_ok_pbinder; exact Hsyn|].
+    change (rs ∖ ({[ident (set_nty x (Some h))]} ∖ {[""]})) with (under rs x).
     eapply typed_unfolded; [exact Ga|exact Hh0|].
     eapply (IH g (Some (set_nty x (Some h)))); eauto.
     + eapply good_head; eauto.
@@ -716,9 +1215,11 @@ Proof.
     pose proof (good_down _ _ _ _ (good_head _ HD _ _ Hh Gt)) as Ga. pose proof (proj1 Ga) as Wa.
     step H. step H. unf HDw H Wa. step H. apply negb_true_iff in G0.
     step H. step H. injection H as <-.
+    pose proof (bd_ok_binder _ Hsyn (not_provider_not_self _ _ Px)) as Hbx.
+    rewrite (under_strict _ _ (proj2 Hbx)) in N.
     eapply T_ShiftC with (T := t);
       [apply (client_ok g Γ (shid sh) rs from t _ t Gg HR Has Hh N0); [apply not_prov_shid; auto|apply Hrefl]
-      |apply whd_of_head; exact Hh|apply bd_ok_binder; exact Hsyn|apply not_prov_shid; auto|].
+      |apply whd_of_head; exact Hh|exact Hbx|apply not_prov_shid; auto|].
     eapply (IH (bind (without g from) x h) sh); eauto.
     + apply gctx_bind; [apply gctx_without; auto|eapply good_head; eauto].
     + apply shadow_fresh_bind; auto. apply shadow_fresh_without; auto.
@@ -736,10 +1237,13 @@ Proof.
   apply negb_true_iff, orb_false_iff in G0. destruct G0 as [F1 F2]. apply negb_true_iff in G1.
   cbn [need tbind] in H. step H. step H. step H. injection H as <-.
   pose proof (gctx_has _ _ _ _ Gg Has) as Gt. pose proof (good_head _ HD _ _ Hh Gt) as Gh.
+  pose proof (bd_ok_binder _ Hsyn (not_provider_not_self _ _ Px)) as Hbx.
+  pose proof (bd_ok_binder _ N1 (not_provider_not_self _ _ Py)) as Hby.
+  rewrite (under_strict _ _ (proj2 Hbx)), (under_strict _ _ (proj2 Hby)) in N.
   eapply T_Split with (T := t).
   - apply (client_ok g Γ (shid sh) rs from t _ t Gg HR Has Hh N0); [apply not_prov_shid; auto|apply Hrefl].
-  - apply bd_ok_binder. exact Hsyn.
-  - apply bd_ok_binder. exact N1.
+  - exact Hbx.
+  - exact Hby.
   - exact (name_equal_bd _ _ Hsyn N1 G1).
   - apply not_prov_shid; auto.
   - apply not_prov_shid; auto.
@@ -780,7 +1284,8 @@ Proof.
     unf HDw H Wbt. step H. step H. step H. destruct a0 as [r' s']. inversion H; subst.
     destruct (IHR _ _ _ _ _ Γ rs Gg Gbs E1 HR N Fr) as [TR LR].
     split; [|simpl; rewrite LR; reflexivity].
-    eapply TBP_cons with (A := bt); [exact Fb|apply bd_ok_binder; exact Hsyn| |exact TR].
+    eapply TBP_cons with (A := bt); [exact Fb|apply bd_ok_pbinder; exact Hsyn| |exact TR].
+    change (rs ∖ ({[ident (set_nty pay (Some h))]} ∖ {[""]})) with (under rs pay).
     eapply (IHk g (Some (set_nty pay (Some h)))); eauto.
     + intros z Ez. injection Ez as <-. apply ctx_has_false. exact G0.
     + apply (ctx_rel_delete g Γ (ident pay)); auto. apply ctx_has_false; auto.
@@ -793,7 +1298,9 @@ Proof.
     unf HDw H Wbt. step H. step H. step H. destruct a0 as [r' s']. inversion H; subst.
     destruct (IHL _ _ _ _ _ _ _ Γ rs Gg GA Gbs SF E1 HR N Fr) as [TR LR].
     split; [|simpl; rewrite LR; reflexivity].
-    eapply TBC_cons with (A := bt); [exact Fb|apply bd_ok_binder; exact Hsyn|apply not_prov_shid; auto| |exact TR].
+    pose proof (bd_ok_binder _ Hsyn (not_provider_not_self _ _ G0)) as Hbp.
+    rewrite (under_strict _ _ (proj2 Hbp)) in N0.
+    eapply TBC_cons with (A := bt); [exact Fb|exact Hbp|apply not_prov_shid; auto| |exact TR].
     eapply (IHk (bind g pay bt) sh); eauto.
     + apply gctx_bind; auto.
     + apply shadow_fresh_bind; auto.
@@ -834,73 +1341,6 @@ Proof.
     eapply labels_cover; eauto using typed_brsL_labels. eapply find_br_Some_In; eauto.
 Qed.
 
-(* ------------------------------------------------------------------ cut *)
-Lemma leaf_all body : has_continuation body = false -> LeafAt body.
-Proof.
-  destruct body; simpl; intros Hc; try discriminate Hc;
-    [apply leaf_send|apply leaf_sel|apply leaf_close|apply leaf_fwd|apply leaf_call|apply leaf_cast].
-Qed.
-
-Lemma fold_append args : forall acc,
-  fold_left (fun acc n => append_if_not_self n acc) args acc = acc ++ nonself args.
-Proof.
-  induction args as [|a r IH]; intros acc; simpl; [rewrite app_nil_r; auto|].
-  rewrite IH. unfold append_if_not_self, nonself. simpl. destruct (is_self a); simpl; auto.
-  rewrite <- app_assoc. reflexivity.
-Qed.
-Lemma free_names_leaf f : has_continuation f = false -> free_names f = nonself (leaf_names f).
-Proof.
-  destruct f; simpl; intros Hc; try discriminate Hc; unfold append_if_not_self, nonself; simpl;
-    repeat match goal with |- context [is_self ?n] => destruct (is_self n) end; simpl; auto.
-  rewrite fold_append. reflexivity.
-Qed.
-Lemma nonself_idem l : nonself (nonself l) = nonself l.
-Proof.
-  unfold nonself. induction l as [|a l IH]; simpl; auto. destruct (is_self a) eqn:E; simpl; auto.
-  rewrite E. simpl. rewrite IH. reflexivity.
-Qed.
-Lemma in_nonself n l : In n l -> is_self n = false -> In n (nonself l).
-Proof. intros Hin Sf. apply filter_In. split; auto. rewrite Sf. reflexivity. Qed.
-
-Lemma split_ctx_facts g ns acc gl gr : split_ctx D g ns acc gl gr -> gctx D g ->
-  (forall Γ, ctx_rel g Γ -> ctx_rel acc Γ -> ctx_rel gl Γ) /\
-  (forall k v, alookup k gr = Some v -> alookup k g = Some v) /\
-  NoDup (map ident (nonself ns)) /\
-  (forall n, In n (nonself ns) -> ctx_has g (ident n) = true /\ ctx_has gl (ident n) = true) /\
-  (forall k, ctx_has acc k = true -> ctx_has gl k = true).
-Proof.
-  induction 1 as [g acc|g n r acc gl gr Sf SP IH|g n r acc gl gr t h Hn Hh SP IH]; intros Gg.
-  - split; [auto|]. split; [auto|]. split; [constructor|]. split; [intros n []|auto].
-  - assert (E : nonself (n :: r) = nonself r) by (unfold nonself; simpl; rewrite Sf; reflexivity).
-    rewrite E. apply IH; auto.
-  - pose proof (proj1 Hn) as Sf.
-    assert (E : nonself (n :: r) = n :: nonself r) by (unfold nonself; simpl; rewrite Sf; reflexivity).
-    rewrite E. destruct (IH (gctx_without _ _ _ Gg)) as [I1 [I2 [I3 [I4 I5]]]].
-    pose proof (gctx_has _ _ _ _ Gg Hn) as Gt.
-    assert (Hacc : ctx_has gl (ident n) = true).
-    { apply I5. unfold ctx_has, bind. apply amem_true. rewrite alookup_aset, String.eqb_refl. eauto. }
-    split; [|split; [|split; [|split]]].
-    + intros Γ HR HA. apply I1; [apply ctx_rel_without; auto|].
-      intros y t0 L. unfold bind in L. rewrite alookup_aset in L.
-      destruct (String.eqb y (ident n)) eqn:Ey; [|eauto].
-      apply String.eqb_eq in Ey. subst y. injection L as <-.
-      destruct (HR _ _ (proj2 Hn)) as [t' [H1 H2]]. exists t'. split; auto.
-      eapply Htrans; [exact H2|]. apply Hsym, Hunf; auto.
-    + intros k v L. apply I2 in L. unfold without in L. apply alookup_aremove_Some in L. tauto.
-    + simpl. constructor; auto. intros Hin. apply in_map_iff in Hin. destruct Hin as [n' [Hid Hn']].
-      destruct (I4 _ Hn') as [Hc _]. unfold ctx_has, without in Hc. apply amem_true in Hc. destruct Hc as [v Hv].
-      rewrite Hid, alookup_aremove_eq in Hv. discriminate.
-    + intros n' [<-|Hin]; [split; auto; eapply has_ctx; eauto|].
-      destruct (I4 _ Hin) as [Hc Hl]. split; auto. eapply ctx_has_without; eauto.
-    + intros k Hk. apply I5. unfold ctx_has, bind in *. apply amem_true. rewrite alookup_aset.
-      destruct (String.eqb k (ident n)); eauto. apply amem_true in Hk. exact Hk.
-Qed.
-
-Lemma ctx_rel_sub g g' Γ : (forall k v, alookup k g' = Some v -> alookup k g = Some v) -> ctx_rel g Γ -> ctx_rel g' Γ.
-Proof. intros Hs HR x t L. apply HR. apply Hs. exact L. Qed.
-Lemma ctx_rel_nil Γ : ctx_rel [] Γ.
-Proof. intros x t L. discriminate L. Qed.
-
 Lemma rt_new x body k : RtAt k -> RtAt (FNew x body k).
 Proof.
   intros IHk g sh A f' Γ rs Gg GA SF H HR Hsyn Hfs. pose proof (gctx_wf _ Gg) as Wg. pose proof (proj1 GA) as WA.
@@ -923,8 +1363,10 @@ Proof.
     assert (EQ : aset (ident x) (Some h) (if ctx_has g (ident x) then aset (ident x) (nty x) gr0 else gr0)
                  = bind gr0 x h) by (destruct (ctx_has g (ident x)); [apply aset_aset|reflexivity]).
     rewrite EQ in E2.
+    pose proof (bd_ok_binder _ Hsyn (not_provider_not_self _ _ PX)) as Hbx.
+    rewrite (under_strict _ _ (proj2 Hbx)) in N.
     eapply T_New with (A := h).
-    + apply bd_ok_binder. exact Hsyn.
+    + exact Hbx.
     + apply not_prov_shid; auto.
     + eapply (leaf_call fn args o gl (Some x) h _ Γ rs None); eauto.
       * apply SR; auto. apply ctx_rel_nil.
@@ -957,8 +1399,10 @@ Proof.
                  = bind gr0 x h) by (destruct (ctx_has g (ident x)); [apply aset_aset|reflexivity]).
     rewrite EQ in E5.
     rewrite (free_names_leaf _ G1) in SN, SI. rewrite nonself_idem in SN, SI.
+    pose proof (bd_ok_binder _ Hsyn (not_provider_not_self _ _ PX)) as Hbx.
+    rewrite (under_strict _ _ (proj2 Hbx)) in N.
     eapply T_New with (A := h).
-    + apply bd_ok_binder. exact Hsyn.
+    + exact Hbx.
     + apply not_prov_shid; auto.
     + eapply (leaf_all body G1 gl (Some (set_nty x (Some h))) h _ Γ rs None); eauto.
       * apply SR; auto. apply ctx_rel_nil.
